@@ -32,6 +32,7 @@ Allowed(c) ==
     /\ mode = "strq" => c \in Delims \cup {"DQ"}
     /\ mode = "aft"  => c \in Delims
     /\ mode = "top"  => (c \in AtomChars => AtomStart(c) # "none")
+    /\ c = "BS" => mode \in {"str", "com"}
 
 Step(c) ==
     LET r == StepF([mode |-> mode, kind |-> kind, cur |-> cur,
